@@ -32,7 +32,16 @@ type K struct {
 	H  uint64
 }
 
-func (k K) Sum() uint64 { return k.H }
+func (k K) Sum() uint64 {
+	if h := sumHook.Load(); h != nil {
+		(*h)(k)
+	}
+	return k.H
+}
+
+// sumHook, when set, is called on every shard selection (Map.getShard calls key.Sum() before it
+// takes the shard lock): a harness-owned schedule point between the internal steps of one operation.
+var sumHook atomic.Pointer[func(K)]
 
 // V identifies the Store that produced it.
 type V struct {
@@ -124,7 +133,6 @@ func runCase(c Case, ctx *hx.Ctx) *hx.Failure {
 	var bulkID atomic.Int64
 	bulkID.Store(1 << 20)
 	hist := make([][]ev, len(c.Progs))
-	capMax := capacity(c.Size)
 	var wg sync.WaitGroup
 	start := make(chan struct{})
 	for g, prog := range c.Progs {
@@ -202,89 +210,11 @@ func runCase(c Case, ctx *hx.Ctx) *hx.Failure {
 		return nil
 	}
 
-	// ------------------------------------------------------------ judge the history
-	type storeRec struct {
-		inv, ret int64
-		key      int
+	f, st := judge(c.Size, hist, ca.Len(), ctx)
+	if f != nil {
+		return f
 	}
-	stores := map[int64]storeRec{} // serial -> record
-	var writes []ev                // stores and flushes (potential overwriters)
-	for _, h := range hist {
-		for _, e := range h {
-			switch e.op.Kind {
-			case "store":
-				stores[e.storedSer] = storeRec{e.inv, e.ret, e.op.Key}
-				writes = append(writes, e)
-			case "flush":
-				writes = append(writes, e)
-			}
-		}
-	}
-	hits, gets, staleChecked := 0, 0, 0
-	maxLen := 0
-	ntFlushOrOverwrite := false
-	for _, h := range hist {
-		for _, e := range h {
-			if e.foreign != "" {
-				return hx.Failf("C11/foreign-value", "%s (size=%d)", e.foreign, c.Size)
-			}
-			switch e.op.Kind {
-			case "len", "range", "bulk":
-				if e.n > maxLen {
-					maxLen = e.n
-				}
-				if e.n > capMax {
-					sig := "C11/capacity-exceeded"
-					if c.Size < 64 && e.n > capMax+256 {
-						sig = "C11/capacity-unbounded-small-size"
-					}
-					return hx.Failf(sig, "configured size %d (capacity %d with the documented minimum of 1024): %s reports %d entries", c.Size, capMax, e.op.Kind, e.n)
-				}
-			case "get":
-				gets++
-				if e.got == nil {
-					continue
-				}
-				hits++
-				v := e.got
-				if v.Key != e.op.Key {
-					return hx.Failf("C11/foreign-value", "Get(key %d) returned a value stored under key %d", e.op.Key, v.Key)
-				}
-				sr, ok := stores[v.Serial]
-				if !ok || sr.key != e.op.Key {
-					return hx.Failf("C11/foreign-value", "Get(key %d) returned a value no Store of that key produced", e.op.Key)
-				}
-				if sr.inv > e.ret {
-					return hx.Failf("C11/value-from-the-future", "Get returned a value whose Store began after the Get returned")
-				}
-				if v.Exp < e.wallInv {
-					return hx.Failf("C11/expired-value", "Get(key %d) returned a value that expired %v before the Get was invoked", e.op.Key, time.Duration(e.wallInv-v.Exp))
-				}
-				for _, w := range writes {
-					if w.op.Kind == "store" && (w.op.Key != e.op.Key || w.storedSer == v.Serial) {
-						continue
-					}
-					if w.op.Kind == "store" && w.op.ExpMs < 1000 {
-						// a Store whose expiry has already passed when it runs is a documented no-op and
-						// overwrites nothing; only Stores that certainly took effect count as overwriters
-						continue
-					}
-					staleChecked++
-					if sr.ret < w.inv && w.ret < e.inv {
-						what := "overwritten by a later Store"
-						if w.op.Kind == "flush" {
-							what = "flushed"
-						}
-						return hx.Failf("C11/stale-value", "Get(key %d) returned value #%d although it was %s that completed before the Get began (store ret=%d, %s inv=%d ret=%d, get inv=%d)", e.op.Key, v.Serial, what, sr.ret, w.op.Kind, w.inv, w.ret, e.inv)
-					}
-					ntFlushOrOverwrite = true
-				}
-			}
-		}
-	}
-	if n := ca.Len(); n > capMax {
-		return hx.Failf("C11/capacity-exceeded", "configured size %d: Len() = %d at the end", c.Size, n)
-	}
+	hits, gets, maxLen, ntFlushOrOverwrite := st.hits, st.gets, st.maxLen, st.nt
 	ctx.Classf("size=%d", c.Size)
 	if hits == 0 {
 		ctx.Class("no-hit")
@@ -303,7 +233,170 @@ func runCase(c Case, ctx *hx.Ctx) *hx.Failure {
 
 func TestPropStore(t *testing.T) { hx.Check(t, 1000, genCase, runCase) }
 
-func TestReplay(t *testing.T) { hx.Replay(t, "TestPropStore", 30, runCase) }
+func TestReplay(t *testing.T) {
+	switch hx.ReplayTarget() {
+	case "TestPropStoreStepped":
+		hx.Replay(t, "TestPropStoreStepped", 3, runStepped)
+	default:
+		hx.Replay(t, "TestPropStore", 30, runCase)
+	}
+}
+
+// ---------------------------------------------------------------- stepped histories: other operations run to completion
+// between two internal steps of one operation (at its k-th shard selection), as a concurrent caller could.
+
+type SOp struct {
+	Kind   string `json:"k"`                // get | store | flush | fill | len
+	Key    int    `json:"key"`              // hot key index
+	ExpMs  int    `json:"exp_ms,omitempty"` // store
+	HookAt int    `json:"hook_at,omitempty"` // run Nested at the operation's HookAt-th shard selection (0 = never)
+	Nested []SOp  `json:"nested,omitempty"`
+}
+
+type SCase struct {
+	Size   int      `json:"size"`
+	Hashes []uint64 `json:"hashes"`
+	Ops    []SOp    `json:"ops"`
+}
+
+func genSOp(t *rapid.T, nk int, nested bool) SOp {
+	op := SOp{Key: rapid.IntRange(0, nk-1).Draw(t, "key")}
+	w := []string{"get", "get", "store", "store", "store", "flush", "fill", "fill", "len"}
+	if nested {
+		w = []string{"get", "store", "flush", "flush", "fill", "fill", "fill", "len"}
+	}
+	op.Kind = rapid.SampledFrom(w).Draw(t, "kind")
+	if op.Kind == "store" {
+		op.ExpMs = rapid.SampledFrom([]int{-50, 3600000, 3600000, 3600000}).Draw(t, "exp")
+	}
+	if !nested && (op.Kind == "store" || op.Kind == "get") && rapid.IntRange(0, 2).Draw(t, "hooked") > 0 {
+		op.HookAt = rapid.SampledFrom([]int{1, 2, 2, 3}).Draw(t, "hookAt")
+		n := rapid.IntRange(1, 3).Draw(t, "nn")
+		for i := 0; i < n; i++ {
+			op.Nested = append(op.Nested, genSOp(t, nk, true))
+		}
+	}
+	return op
+}
+
+func genSCase(t *rapid.T) SCase {
+	c := SCase{Size: rapid.SampledFrom([]int{0, 100, 1024, 1024, 1100, 2048}).Draw(t, "size")}
+	nk := rapid.IntRange(1, 4).Draw(t, "nkeys")
+	for i := 0; i < nk; i++ {
+		c.Hashes = append(c.Hashes, uint64(rapid.IntRange(0, 2).Draw(t, "h")))
+	}
+	n := rapid.IntRange(2, 14).Draw(t, "nops")
+	for i := 0; i < n; i++ {
+		c.Ops = append(c.Ops, genSOp(t, nk, false))
+	}
+	return c
+}
+
+func runStepped(c SCase, ctx *hx.Ctx) *hx.Failure {
+	ca := cache.New[K, *V](cache.Opts{Size: c.Size, CleanerInterval: time.Hour})
+	defer ca.Close()
+	defer sumHook.Store(nil)
+	capMax := capacity(c.Size)
+	var clock, serial int64
+	tick := func() int64 { clock++; return clock }
+	var hist []ev
+	fired, nestedRun := 0, 0
+	var fail *hx.Failure
+	var run func(op SOp, nested bool)
+	run = func(op SOp, nested bool) {
+		e := ev{op: Op{Kind: op.Kind, Key: op.Key, ExpMs: op.ExpMs}}
+		k := K{ID: op.Key, H: c.Hashes[op.Key%len(c.Hashes)]}
+		e.op.Key = k.ID
+		if !nested && op.HookAt > 0 {
+			calls := 0
+			h := func(kk K) {
+				if kk != k {
+					return
+				}
+				calls++
+				if calls == op.HookAt {
+					sumHook.Store(nil)
+					fired++
+					for _, n := range op.Nested {
+						run(n, true)
+						nestedRun++
+					}
+				}
+			}
+			sumHook.Store(&h)
+		}
+		switch op.Kind {
+		case "get":
+			e.wallInv = int64(time.Since(base))
+			e.inv = tick()
+			v, exp, ok := ca.Get(k)
+			e.ret = tick()
+			if ok {
+				if v == nil {
+					e.foreign = "ok=true with nil value"
+				} else {
+					e.got = v
+					if int64(exp.Sub(base)) != v.Exp {
+						e.foreign = fmt.Sprintf("expiry returned %d differs from the stored one %d", int64(exp.Sub(base)), v.Exp)
+					}
+				}
+			}
+		case "store":
+			exp := time.Now().Add(time.Duration(op.ExpMs) * time.Millisecond)
+			serial++
+			v := &V{Key: k.ID, Serial: serial, Exp: int64(exp.Sub(base))}
+			e.storedSer = v.Serial
+			e.inv = tick()
+			ca.Store(k, v, exp)
+			e.ret = tick()
+		case "flush":
+			e.inv = tick()
+			ca.Flush()
+			e.ret = tick()
+		case "fill":
+			// as many filler keys as the capacity, spread evenly over the shards
+			e.op.Kind = "bulk"
+			e.inv = tick()
+			exp := time.Now().Add(time.Hour)
+			for i := 0; i < capMax; i++ {
+				id := 1<<20 + i
+				serial++
+				ca.Store(K{ID: id, H: uint64(i)}, &V{Key: id, Serial: serial, Exp: int64(exp.Sub(base))}, exp)
+			}
+			e.n = ca.Len()
+			e.ret = tick()
+		case "len":
+			e.inv = tick()
+			e.n = ca.Len()
+			e.ret = tick()
+		}
+		sumHook.Store(nil)
+		hist = append(hist, e)
+		// the bound holds at every instant: look after every step, nested or not
+		if n := ca.Len(); n > capMax && fail == nil {
+			fail = hx.Failf("C11/capacity-exceeded", "configured size %d (capacity %d): %d entries after %s(key %d, hook at shard selection %d, nested %v) [nested=%v]", c.Size, capMax, n, op.Kind, op.Key, op.HookAt, op.Nested, nested)
+		}
+	}
+	for _, op := range c.Ops {
+		run(op, false)
+		if fail != nil {
+			return fail
+		}
+	}
+	if f, _ := judge(c.Size, [][]ev{hist}, ca.Len(), ctx); f != nil {
+		return f
+	}
+	if fired > 0 {
+		ctx.Class("nested-fired")
+		ctx.Nontrivial(fmt.Sprintf("%v", c))
+	} else {
+		ctx.Class("no-nested")
+	}
+	ctx.Sample(c)
+	return nil
+}
+
+func TestPropStoreStepped(t *testing.T) { hx.Check(t, 3000, genSCase, runStepped) }
 
 // ---------------------------------------------------------------- pkg/lru, pkg/concurrent_lru (listed in the anchors)
 
@@ -471,4 +564,101 @@ func TestShardedLRURace(t *testing.T) {
 		ctx.Sample("8 goroutines x 20000 Add/Get/Del/Len/Flush/Clean on 64 keys, 4 shards x 8")
 		return nil
 	})
+}
+
+type judgeStats struct {
+	hits, gets, maxLen int
+	nt                 bool
+}
+
+// judge applies the validity rule to a stamped history (one list per goroutine; intervals may nest).
+func judge(size int, hist [][]ev, finalLen int, ctx *hx.Ctx) (*hx.Failure, judgeStats) {
+	var st judgeStats
+	capMax := capacity(size)
+	// ------------------------------------------------------------ judge the history
+	type storeRec struct {
+		inv, ret int64
+		key      int
+	}
+	stores := map[int64]storeRec{} // serial -> record
+	var writes []ev                // stores and flushes (potential overwriters)
+	for _, h := range hist {
+		for _, e := range h {
+			switch e.op.Kind {
+			case "store":
+				stores[e.storedSer] = storeRec{e.inv, e.ret, e.op.Key}
+				writes = append(writes, e)
+			case "flush":
+				writes = append(writes, e)
+			}
+		}
+	}
+	hits, gets, staleChecked := 0, 0, 0
+	maxLen := 0
+	ntFlushOrOverwrite := false
+	for _, h := range hist {
+		for _, e := range h {
+			if e.foreign != "" {
+				return hx.Failf("C11/foreign-value", "%s (size=%d)", e.foreign, size), st
+			}
+			switch e.op.Kind {
+			case "len", "range", "bulk":
+				if e.n > maxLen {
+					maxLen = e.n
+				}
+				if e.n > capMax {
+					sig := "C11/capacity-exceeded"
+					if size < 64 && e.n > capMax+256 {
+						sig = "C11/capacity-unbounded-small-size"
+					}
+					return hx.Failf(sig, "configured size %d (capacity %d with the documented minimum of 1024): %s reports %d entries", size, capMax, e.op.Kind, e.n), st
+				}
+			case "get":
+				gets++
+				if e.got == nil {
+					continue
+				}
+				hits++
+				v := e.got
+				if v.Key != e.op.Key {
+					return hx.Failf("C11/foreign-value", "Get(key %d) returned a value stored under key %d", e.op.Key, v.Key), st
+				}
+				sr, ok := stores[v.Serial]
+				if !ok || sr.key != e.op.Key {
+					return hx.Failf("C11/foreign-value", "Get(key %d) returned a value no Store of that key produced", e.op.Key), st
+				}
+				if sr.inv > e.ret {
+					return hx.Failf("C11/value-from-the-future", "Get returned a value whose Store began after the Get returned"), st
+				}
+				if v.Exp < e.wallInv {
+					return hx.Failf("C11/expired-value", "Get(key %d) returned a value that expired %v before the Get was invoked", e.op.Key, time.Duration(e.wallInv-v.Exp)), st
+				}
+				for _, w := range writes {
+					if w.op.Kind == "store" && (w.op.Key != e.op.Key || w.storedSer == v.Serial) {
+						continue
+					}
+					if w.op.Kind == "store" && w.op.ExpMs < 1000 {
+						// a Store whose expiry has already passed when it runs is a documented no-op and
+						// overwrites nothing; only Stores that certainly took effect count as overwriters
+						continue
+					}
+					staleChecked++
+					if sr.ret < w.inv && w.ret < e.inv {
+						what := "overwritten by a later Store"
+						if w.op.Kind == "flush" {
+							what = "flushed"
+						}
+						return hx.Failf("C11/stale-value", "Get(key %d) returned value #%d although it was %s that completed before the Get began (store ret=%d, %s inv=%d ret=%d, get inv=%d)", e.op.Key, v.Serial, what, sr.ret, w.op.Kind, w.inv, w.ret, e.inv), st
+					}
+					ntFlushOrOverwrite = true
+				}
+			}
+		}
+	}
+	if n := finalLen; n > capMax {
+		return hx.Failf("C11/capacity-exceeded", "configured size %d: Len() = %d at the end", size, n), st
+	}
+	st.hits, st.gets, st.maxLen, st.nt = hits, gets, maxLen, ntFlushOrOverwrite
+	_ = staleChecked
+	return nil, st
 }
